@@ -14,8 +14,7 @@ def items(rep):
                                   ("right_vertex_operation_taken_from_left", verify.replace_expr("content_values[interpolation_indices + 1]", "content_values[interpolation_indices]"))]),
             (SimpleConstraints(), simple_canaries()),
             (EqualizedOddsEntries(), [("p_ignore_relative_to_the_wrong_distance", verify.replace_expr("roc_result.y - roc_result.x", "roc_result.y")),
-                                      ("constant_prediction_at_y_best", verify.replace_expr("prediction_constant=self._x_best", "prediction_constant=self._y_best") if False else
-                                       verify.replace_expr("self._x_best", "self._y_best")),
+                                      ("constant_prediction_at_y_best", verify.replace_expr("self._x_best", "self._y_best", 1)),
                                       ("difference_from_the_groups_own_tpr_dropped", verify.replace_expr("roc_result.y - self._y_best", "self._y_best"))])]
 
 
